@@ -1547,7 +1547,8 @@ def measure_reinit_policy(repo):
         m = re.search(r"libvm_execute_build_in\s*\(.*?feclearexcept\s*\(([^)]*)\)", src, re.S)
         m2 = re.search(r"fetestexcept\s*\(([^)]*)\)", src[m.end():]) if m else None
         if m and m2:
-            out["cleared"], out["tested"] = sorted(flagset(m.group(1))), sorted(flagset(m2.group(1)))
+            # every feclearexcept call of the prologue (function head up to the `switch`) counts: the mask may be cleared in several calls
+            out["cleared"], out["tested"] = sorted(flagset(" ".join(re.findall(r"feclearexcept\s*\(([^)]*)\)", re.split(r"\bswitch\b", src[m.start():m.end() + m2.start()])[0])))), sorted(flagset(m2.group(1)))
             out["tested_subset_of_cleared"] = set(out["tested"]) <= set(out["cleared"])
     except OSError:
         pass
